@@ -253,6 +253,13 @@ def write_evidence(ctx: Ctx, level: str = "proof"):
         "exhaustive": False,
     }
     cov.update(ctx.extra)
+    if not ctx.discharged:
+        # a broken proof obligation: the proof-level keys would be invalid (discharged must be >= 1);
+        # report what failed and fall back to the exploration-style counts
+        cov["obligations_stated"] = cov.pop("obligations")
+        cov.pop("discharged")
+        cov["proof_status"] = "BROKEN: lake build of the property module failed (see ties_broken)"
+        cov["evaluations"] = max(1, cov["evaluations"])
     ev = {
         "property_id": ctx.prop,
         "tier": ctx.tier,
